@@ -35,7 +35,7 @@ def run(ctx, replay=None):
     else:
         l1(ctx, "MCRegistry", "CONSTANT MaxReq = %d\nSPECIFICATION Spec\nINVARIANTS TagsPointToManifests UploadsBelong "
            "AllowedAnswered DeleteRemovesTags\nCHECK_DEADLOCK FALSE\n" % (3 if ctx.quick else 4), name="L1-MCRegistry", timeout=2400)
-        out, summ = drive(ctx, {"VH_COUNT": 600 if ctx.quick else 20000})
+        out, summ = drive(ctx, {"VH_COUNT": 600 if ctx.quick else 60000})
     viol = monitor(ctx, "RegistryMon", summ["files"], label="L3", heap="4g", par=6)
     fake = [v for v in viol if v["inv"] in FAKE]
     if fake:
